@@ -38,6 +38,9 @@ pub struct ParamCfg {
     pub alpn_pad: usize,
     /// the client trusts an unrelated CA (the handshake fails with a TLS alert)
     pub wrong_ca: bool,
+    /// at this virtual time a stray 0-RTT long-header packet that names the connection's original destination
+    /// connection id reaches the server from an unrelated address (the server has no 0-RTT keys: it must drop it)
+    pub stray_0rtt_ms: Option<u64>,
 }
 
 impl Default for ParamCfg {
@@ -56,6 +59,7 @@ impl Default for ParamCfg {
             cert_repeat: 1,
             alpn_pad: 0,
             wrong_ca: false,
+            stray_0rtt_ms: None,
         }
     }
 }
@@ -65,7 +69,7 @@ impl ParamCfg {
         json!({"max_data": self.max_data, "stream_data": self.stream_data, "streams_bidi": self.streams_bidi,
                "streams_uni": self.streams_uni, "idle_client_ms": self.idle_client_ms, "idle_server_ms": self.idle_server_ms,
                "max_ack_delay_ms": self.max_ack_delay_ms, "datagram": self.datagram, "datagram_server": self.datagram_server, "mtu": self.mtu,
-               "cert_repeat": self.cert_repeat, "alpn_pad": self.alpn_pad, "wrong_ca": self.wrong_ca})
+               "cert_repeat": self.cert_repeat, "alpn_pad": self.alpn_pad, "wrong_ca": self.wrong_ca, "stray_0rtt_ms": self.stray_0rtt_ms})
     }
 
     pub fn from_json(v: &Value) -> Self {
@@ -85,6 +89,7 @@ impl ParamCfg {
             cert_repeat: g("cert_repeat", 1) as usize,
             alpn_pad: g("alpn_pad", 0) as usize,
             wrong_ca: v.get("wrong_ca").and_then(|x| x.as_bool()).unwrap_or(false),
+            stray_0rtt_ms: v.get("stray_0rtt_ms").and_then(|x| x.as_u64()),
         }
     }
 
@@ -519,6 +524,23 @@ pub fn run_with(spec: &Spec, hook: Option<NetHook>) -> Outcome {
                 match c.handshaked().await {
                     Ok(()) => sh.lock().unwrap().handshake_ms = Some(net.now().as_millis() as u64),
                     Err(e) => sh.lock().unwrap().handshake_err = Some(errkind(&e)),
+                }
+            });
+        }
+        if let Some(at) = spec.params.stray_0rtt_ms {
+            let net = net.clone();
+            tokio::spawn(async move {
+                tokio::time::sleep(Duration::from_millis(at)).await;
+                if let Some(dcid) = net.first_dcid() {
+                    // long header, fixed bit, type 0-RTT; version 1; the connection's original DCID; an 8-byte SCID;
+                    // Length 40; 40 bytes of "protected" payload
+                    let mut p = vec![0xd3u8, 0, 0, 0, 1, dcid.len() as u8];
+                    p.extend_from_slice(&dcid);
+                    p.push(8);
+                    p.extend_from_slice(&[0xa5; 8]);
+                    p.extend_from_slice(&[0x40, 40]);
+                    p.extend((0..40u8).map(|i| i.wrapping_mul(37) ^ 0x5c));
+                    net.inject("10.0.0.9:9999".parse().unwrap(), crate::world::server_addr(), p, Duration::from_millis(1));
                 }
             });
         }
